@@ -1,6 +1,8 @@
 package main
 
 import (
+	"net/http/httptest"
+	"encoding/json"
 	"bytes"
 	"fmt"
 	"io/ioutil"
@@ -102,7 +104,7 @@ func c18ExtractValue(body []byte) (string, bool) {
 }
 
 func TestVerif_C18(t *testing.T) {
-	res := newVerifResult("16 canary payloads (quotes, angle brackets, entities, NUL, overlong UTF-8, backticks, comment/CDATA closers, javascript:) placed in every form/query field, the path suffix and the Referer/User-Agent of every route of the regenerated service mux, with no credential / user sessions (password, password+U2F) / admin sessions (password only, +TOTP, +U2F), GET and POST, Accept: text/html; every text/html response tokenised with golang.org/x/net/html; plus destinations through the login-failure, 2FA and OpenID-authorize login pages compared byte for byte with the model of the hidden INPUT; non-trivial = response is HTML and echoes part of the payload; distinct by (route, mode, credential, payload, problems)")
+	res := newVerifResult("16 canary payloads (quotes, angle brackets, entities, NUL, overlong UTF-8, backticks, comment/CDATA closers, javascript:) placed in every form/query field, the path suffix and the Referer/User-Agent of every route of the regenerated service mux, with no credential / user sessions (password, password+U2F) / admin sessions (password only, +TOTP, +U2F), GET and POST, Accept: text/html; every text/html response tokenised with golang.org/x/net/html; sessions of users whose NAMES are payloads on every route; success paths (completed login and bootstrap-OTP second factor, GET and POST) with hostile destinations; plus destinations through the login-failure, 2FA and OpenID-authorize login pages compared byte for byte with the model of the hidden INPUT; non-trivial = response is HTML and echoes part of the payload; distinct by (route, mode, credential, payload, problems)")
 	env := verifSetup(t, func(c *AppConfigFile, dir string) {
 		c.Base.AllowedAuthBackendsForWebUI = []string{"U2F", "TOTP"}
 		c.Base.AllowedAuthBackendsForCerts = []string{"U2F"}
@@ -148,6 +150,7 @@ func TestVerif_C18(t *testing.T) {
 				return
 			}
 			target += url.PathEscape(payload)
+		case "plain": // nothing hostile in the request itself: the payload is the acting user's name
 		}
 		req := verifNewRequest(method, target, form)
 		req.Header.Set("Accept", "text/html")
@@ -192,6 +195,82 @@ func TestVerif_C18(t *testing.T) {
 					}
 					probe(route, mode, c.name, c.cookie, p)
 				}
+			}
+		}
+	}
+	// the authenticated user's NAME is request-controlled text too (it was typed into a login form or
+	// came from a federated provider): sessions of users whose names are payloads visit every route
+	for pi, p := range payloads[:4] {
+		for _, level := range []int{AuthTypePassword | AuthTypeU2F, AuthTypePassword} {
+			c := env.cookie(p, level)
+			for _, route := range routes {
+				if strings.HasPrefix(route.Path, "/static/") || strings.HasPrefix(route.Path, "/custom_static/") {
+					continue
+				}
+				probe(route, "plain", fmt.Sprintf("payload-user-%d-level-%d", pi, level), c, p)
+				if level&AuthTypeU2F != 0 {
+					probe(route, "post", fmt.Sprintf("payload-user-%d-level-%d", pi, level), c, p)
+				}
+			}
+		}
+	}
+	// success paths: a completed login / second factor with a hostile destination (a second state whose
+	// web UI accepts the password alone, so that the login handler answers with the redirect itself)
+	env2 := verifSetup(t, func(c *AppConfigFile, dir string) {
+		c.Base.AllowedAuthBackendsForWebUI = []string{"password"}
+		c.Base.AllowedAuthBackendsForCerts = []string{"U2F"}
+		c.Base.AdminUsers = []string{"admin"}
+		c.Base.PasswordAttemptGlobalBurstLimit = 1000000
+		c.Base.PasswordAttemptGlobalRateLimit = 1000000
+	})
+	env2.state.SaveUserProfile("alice", &userProfile{})
+	scanSuccess := func(via, dest string, rr *httptest.ResponseRecorder) {
+		body := rr.Body.Bytes()
+		var problems []string
+		if len(body) > 0 && (c18IsHTML(rr.Header(), body) || bytes.Contains(body, []byte("<"))) {
+			problems = c18Scan(body)
+		}
+		// the Location header must not smuggle markup either when a browser shows the fallback link
+		res.eval("success|"+via+"|"+dest+fmt.Sprint(problems), bytes.Contains(body, []byte(canary)))
+		res.bump("success_path:" + via)
+		if len(problems) > 0 {
+			res.hit(verifHit{Key: "C18:markup:success:" + via, Oracle: "request-controlled text became an element, attribute or script content",
+				What: fmt.Sprintf("%s with login_destination %q (status %d): %s", via, dest, rr.Code, strings.Join(problems, "; ")),
+				Case: map[string]interface{}{"via": via, "login_destination": dest}, Observed: problems})
+		}
+	}
+	admin2 := env2.cookie("admin", AuthTypePassword|AuthTypeU2F)
+	succDests := append([]string{}, payloads...)
+	succDests = append(succDests, "/a?x=<"+canary+">", "/a?\"><"+canary+" x=\"", "/x?q='><"+canary+">")
+	for _, d := range succDests {
+		if !strings.HasPrefix(d, "/") {
+			d = "/" + d
+		}
+		for _, method := range []string{"POST", "GET"} {
+			f := url.Values{}
+			f.Set("username", "alice")
+			f.Set("password", "alicepw")
+			f.Set("login_destination", d)
+			req := verifNewRequest(method, "/api/v0/login", f)
+			req.Header.Set("Accept", "text/html")
+			rr, _ := env2.serve(req)
+			scanSuccess("login:"+method, d, rr)
+			// bootstrap OTP: issue, then present with the hostile destination
+			fo := url.Values{}
+			fo.Set("username", "alice")
+			ro := verifNewRequest("POST", generateBoostrapOTPPath, fo)
+			ro.AddCookie(admin2)
+			rro, _ := env2.serve(ro)
+			var od newBootstrapOTPPPageTemplateData
+			if json.Unmarshal(rro.Body.Bytes(), &od) == nil && od.BootstrapOTPValue != "" {
+				fb := url.Values{}
+				fb.Set("OTP", od.BootstrapOTPValue)
+				fb.Set("login_destination", d)
+				rb := verifNewRequest(method, bootstrapOtpAuthPath, fb)
+				rb.Header.Set("Accept", "text/html")
+				rb.AddCookie(env2.cookie("alice", AuthTypePassword))
+				rrb, _ := env2.serve(rb)
+				scanSuccess("bootstrapOtp:"+method, d, rrb)
 			}
 		}
 	}
